@@ -1277,7 +1277,7 @@ impl<'a, 'b> Iterator for TokenIterator<'a, 'b> {
             for (i, &b) in boundaries.iter().enumerate() {
                 if b == CharacterBoundary::WordBoundary {
                     if skip_token {
-                        self.token.start += i + 1;
+                        self.token.start = self.token.end + i + 1;
                         skip_token = false;
                     } else {
                         self.token.end += i + 1;
